@@ -7,12 +7,7 @@ import UnifexModel.Proto.SpawnFuture
 namespace Unifex.Props.C09
 open Unifex.Core Unifex.Proto.SpawnFuture
 
-theorem cancel_error_safe_modulo_uaf :
-    ∀ s, Reach (sys cfgCancelError) s → safeModUaf cfgCancelError s = true :=
+theorem cancel_error_safe : ∀ s, Reach (sys cfgCancelError) s → safe cfgCancelError s = true :=
   safe_of_check _ { coded with M := 1531 } 400 _ (by decide +kernel)
-
-theorem cancel_error_uaf :
-    ∃ s, Reach (sys cfgCancelError) s ∧ (s.uaf && final cfgCancelError s) = true :=
-  reach_of_run _ [1, 1, 0, 0, 1, 0, 0, 0, 2, 0, 2, 1, 1, 0, 0, 1, 0, 0] _ (by decide +kernel)
 
 end Unifex.Props.C09
